@@ -4,6 +4,7 @@ import Driver.SStrOps
 import Driver.ModOps
 import Driver.RuleOps
 import Driver.CollOps
+import Driver.GateOps
 open Lean Driver
 
 def dispatch (op : String) (j : Json) : Except String Json :=
@@ -22,6 +23,7 @@ def dispatch (op : String) (j : Json) : Except String Json :=
   | "rule.batch" => ruleBatch j
   | "coll.check" => collCheck j
   | "coll.convert" => collConvert j
+  | "gate.eval" => gateEval j
   | "ping" => pure (Json.mkObj [("pong", true)])
   | _ => throw s!"unknown op {op}"
 
